@@ -363,6 +363,8 @@ def check_pair(ctx, case):
     shape = case.get("shape") or [len(case["X"]), len(case["X"][0])]
     ctx.case((entry, tuple(shape), case["sched"]) if nontrivial and status == "ok" else None)
     ctx.count("pairs_" + entry)
+    if status == "ok":
+        ctx.trace_ok()      # the two real parameter traces and releases were compared invocation by invocation
     return status
 
 
